@@ -48,7 +48,12 @@ def run_case(r, seed, name, label, cfg, profile, kwlen, relation, cache=None):
     L = sse.loader(name)
     r['states'] += 1
     try:
-        client = sse.shared_scheme(cache, L, cfg1, 'client') if cache is not None else L.SSEScheme(cfg1)
+        # the three parties must not share their HISTORIES: alternately the index-building client is the long-lived object (used
+        # with many keys before) and the reloaded client is brand new, or the other way round; the server is always long-lived
+        parity = cache.setdefault('_n', 0) % 2 if cache is not None else 0
+        if cache is not None:
+            cache['_n'] += 1
+        client = sse.shared_scheme(cache, L, cfg1, 'client') if (cache is not None and parity == 0) else L.SSEScheme(cfg1)
         if relation.startswith('keypattern:'):
             det.pattern_urandom(relation.split(':', 1)[1], seed, name, label)
             r.count('patterned-keys')
@@ -72,7 +77,7 @@ def run_case(r, seed, name, label, cfg, profile, kwlen, relation, cache=None):
     try:
         if cache is not None:
             server = sse.shared_scheme(cache, L, cfg_wire, 'server')
-            client2 = sse.shared_scheme(cache, L, cfg_wire, 'client2')
+            client2 = sse.shared_scheme(cache, L, cfg_wire, 'client2') if parity == 1 else L.SSEScheme(copy.deepcopy(cfg_wire))
         else:
             server = L.SSEScheme(cfg_wire)
             client2 = L.SSEScheme(copy.deepcopy(cfg_wire))
